@@ -28,7 +28,7 @@
 (*    processes);                                                           *)
 (*  - purely local steps are placed as early as possible.                   *)
 (***************************************************************************)
-EXTENDS PowMine, Json
+EXTENDS PowMine, Json, SequencesExt
 
 Trace == ndJsonDeserialize("trace.ndjson")      \* Trace[1] is the header
 Events == SubSeq(Trace, 2, Len(Trace))
@@ -99,7 +99,7 @@ Consume == /\ l <= NE
            /\ UNCHANGED vars
 
 TNext == IF ForcedSet # {}
-         THEN Run(CHOOSE p \in ForcedSet : \A q \in ForcedSet : p[1] < q[1] \/ (p[1] = q[1] /\ p[2] <= q[2]))
+         THEN Run(CHOOSE p \in ForcedSet : TRUE)      \* any fixed order: forced steps commute
          ELSE \/ Consume
               \/ \E p \in Procs : (Free(p) \/ Late(p)) /\ Run(p)
 TSpec == TInit /\ [][TNext]_tvars
